@@ -356,6 +356,43 @@ def check(ctx: Ctx) -> None:
                                                "(or altered) and the peer's decoder, which is strict, fails on them")
         ob.require(ncodec >= 4, f"{ncodec} encode/decode calls in the serializer (floor 4)")
 
+    # ---- C01.l the reader applies no content test to a payload that the writer does not know about
+    with ctx.obligation("C01.l", "reader-no-stricter-than-writer") as ob:
+        # a loader may reject a payload because the decoding primitive itself fails (int(), decode(): try/except) -- a separate
+        # predicate over the payload bytes (isdigit, startswith, a comparison) rejects strings the writer legitimately emits
+        # unless the writer guarantees that predicate; none of the writers does (they emit str(i), encode(...), raw bytes)
+        from ..terms import evaluator as _evl, subterms as _subl
+        nload = 0
+        for lname, m0 in sorted(repo.cls("Unserializer").methods.items()):
+            if not lname.startswith("load_"):
+                continue
+            m = repo.func(m0.qualname)
+            nload += 1
+            bad = None
+            try:
+                paths = list(_evl(repo, m).run(limit=4000))
+            except AnalysisError:
+                continue
+            for (pth, st_) in paths:
+                rz = [e for e in st_.events if e.kind == "raise"]
+                if not rz or any(e.kind == "call" and e.raised and not str(e.callee or "").split(".")[-1][:1].isupper() for e in st_.events):
+                    continue   # not a raise of the loader's own, or the conversion of a failed primitive
+                payloads = {e.result for e in st_.events if e.kind == "call" and e.result is not None and
+                            str(e.callee or e.attr or "").split(".")[-1] in ("_read_byte_string", "_read_exact", "read")}
+                for (t, _v) in st_.cond[:rz[-1].ncond]:
+                    subs = list(_subl(t))
+                    uses_payload = any(x in payloads for x in subs)
+                    is_content_test = any(isinstance(x, tuple) and len(x) == 4 and x[0] == "pcall" and isinstance(x[1], tuple) and x[1][:1] == ("meth",) and x[1][1] in payloads for x in subs) \
+                        or (t[0] == "cmp" and (t[2] in payloads or t[3] in payloads) and t[1] in ("eq", "ne", "in", "lt", "le"))
+                    if uses_payload and is_content_test and bad is None:
+                        bad = (rz[-1], t)
+            ob.site(m, m.node, f"{lname}: a payload is rejected only when the decoding primitive fails", ok=bad is None)
+            if bad is not None:
+                from ..terms import show as _shl
+                ob.violation(m, bad[0].node, f"{lname} rejects a payload by the content test `{_shl(bad[1])[:80]}`, which is not part of the format: values the writer emits "
+                                             "(e.g. the sign of a negative big integer) are refused on load although they were serialised", construct=f"{lname}: content test on payload")
+        ob.require(nload >= 15, f"{nload} loaders (floor 15)")
+
     # ---- C01.h dump-before-send
     with ctx.obligation("C01.h", "dump-before-send") as ob:
         nsend = 0
